@@ -4,23 +4,23 @@ import SignaloModel.Proofs.SmoothProofs
 /-!
 # C06 — Scalar Kalman filter follows the textbook recursion and stays in the data hull
 
-Property theorems for C06 (statements are printed by `#check`, axioms by `#check @Registry.kalman_step_textbook
-#check @Registry.kalman_state
-#check @Registry.kalman_registry_correct
-#check @Registry.kalman_registry_hull
-#print axioms`;
-`bin/check C06` re-elaborates this file on every run and audits the axiom lists).
+The property theorems for C06: `#check` prints each statement, `#print axioms` its axioms;
+`bin/check C06` re-elaborates this file on every run and audits the axiom lists.
 -/
 open SignaloModel
 
+#check @Registry.kalman_step_textbook
+#check @Registry.kalman_state
+#check @Registry.kalman_registry_correct
+#check @Registry.kalman_registry_hull
 #check @kalman_step_hull
 #check @kalman_zero_control
 #check @Smooth.kalman_hull
 
-#print axioms kalman_step_hull
-#print axioms kalman_zero_control
-#print axioms Smooth.kalman_hull
 #print axioms Registry.kalman_step_textbook
 #print axioms Registry.kalman_state
 #print axioms Registry.kalman_registry_correct
 #print axioms Registry.kalman_registry_hull
+#print axioms kalman_step_hull
+#print axioms kalman_zero_control
+#print axioms Smooth.kalman_hull
